@@ -11,6 +11,7 @@ CONSTANTS
   Root <- ISqrtSmall
   Advs = {2}
   LagVals = {0, 1, 2}
+  RootVals = {1, 2}
   TokIds = {1, 2}
   N = 2
   T0 = 3
@@ -20,5 +21,5 @@ CONSTANTS
   Conc = TRUE
   Variant = "code"
   Emit = FALSE
-INVARIANTS IConservation INonNegative IZeroAtRest Envelope IRanges LockOK OneLogger
+INVARIANTS IConservation INonNegative IZeroAtRest Envelope IRanges LockOK OneLogger IReqConservation IDrawsLaw
 CHECK_DEADLOCK TRUE
